@@ -538,9 +538,18 @@ class CancelScope(BaseCancelScope):
                 if self._pending_uncancellations:
                     assert self._parent_scope is not None
                     assert self._parent_scope._pending_uncancellations is not None
-                    self._parent_scope._pending_uncancellations += (
-                        self._pending_uncancellations
-                    )
+                    if self._parent_scope._host_task is self._host_task:
+                        self._parent_scope._pending_uncancellations += (
+                            self._pending_uncancellations
+                        )
+                    else:
+                        # The enclosing scope is hosted by another task (a task group's
+                        # scope seen from a child task). These cancel() calls were made
+                        # on this task, so they must not be undone on the other one.
+                        while self._pending_uncancellations:
+                            self._host_task.uncancel()
+                            self._pending_uncancellations -= 1
+
                     self._pending_uncancellations = 0
 
                 return False
